@@ -479,6 +479,9 @@ class Interp:
             r = self.on_call(self, name, f, args, kwargs)
             if r is not NotImplemented:
                 return r
+        folded = self._fold_regex_call(name, args, kwargs)
+        if folded is not None:
+            return folded
         if len(args) >= 2 and name not in self.pure_calls and (
                 isinstance(args[0], (RegexV, K)) or isinstance(args[0], T)):
             # a constant pattern applied to a constant subject is computed;
@@ -514,6 +517,41 @@ class Interp:
             return t
         self.fresh_n += 1
         return T('ret', name, self.fresh_n, *targs)
+
+    def _fold_regex_call(self, name, args, kwargs):
+        """re.sub / subn / findall / split of a constant pattern with a
+        constant (non-callable) replacement on a constant subject: computed
+        by the stdlib."""
+        import re as _re
+        base = name.rsplit('.', 1)[-1]
+        if not (name.startswith('re.') and base in (
+                'sub', 'subn', 'findall', 'split')):
+            return None
+        if not args or not all(isinstance(a, (K, RegexV)) for a in args) \
+                or not all(isinstance(v, K) for v in kwargs.values()):
+            return None
+        rx = args[0]
+        try:
+            if isinstance(rx, RegexV):
+                pat = _re.compile(rx.pattern, rx.flags)
+                rest = [a.v for a in args[1:]]
+                if any(isinstance(a, RegexV) for a in args[1:]):
+                    return None
+                r = getattr(pat, base)(*rest, **{k: v.v for k, v in
+                                                 kwargs.items()})
+            else:
+                if any(isinstance(a, RegexV) for a in args[1:]):
+                    return None
+                r = getattr(_re, base)(*[a.v for a in args],
+                                       **{k: v.v for k, v in kwargs.items()})
+        except _re.error:
+            raise AbsRaise(T('exc', 're.error'))
+        except TypeError:
+            raise AbsRaise(T('exc', 'TypeError'))
+        except (IndexError, KeyError) as e:
+            raise AbsRaise(T('exc', type(e).__name__))
+        from . import models
+        return models.from_python(r)
 
     def may_raise(self, name, t):
         """Fork on the exceptions a partial builtin/stdlib call is declared
